@@ -6,7 +6,10 @@ import (
 
 	cid "github.com/ipfs/go-cid"
 
+	plaincbor "github.com/ipld/go-ipld-prime/codec/cbor"
 	"github.com/ipld/go-ipld-prime/codec/dagcbor"
+	"github.com/ipld/go-ipld-prime/codec/dagjson"
+	plainjson "github.com/ipld/go-ipld-prime/codec/json"
 	"github.com/ipld/go-ipld-prime/datamodel"
 	nd "github.com/ipld/go-ipld-prime/internal/verifnd"
 	cidlink "github.com/ipld/go-ipld-prime/linking/cid"
@@ -64,6 +67,22 @@ func HEncode() {
 		n = fnode.New(ins)
 	}
 	checkEncode(v, ins, n)
+}
+
+// HAfterOtherCodecs: the other codecs of the library (which share code and option types with
+// this one) were used before in this process: the encoding is still a function of the value alone.
+func HAfterOtherCodecs() {
+	var scratch bytes.Buffer
+	pre := basicnode.NewString("x")
+	plaincbor.Encode(pre, &scratch)
+	dagjson.Encode(pre, &scratch)
+	plainjson.Encode(pre, &scratch)
+	nbx := basicnode.Prototype.Any.NewBuilder()
+	plaincbor.Decode(nbx, bytes.NewReader([]byte{0x01}))
+	ms := []string{"{2i1n}", "[l{1L}]", "{1i1i1s2}"}
+	v := gen.FromShape("", ms[nd.Choose("shape", len(ms))])
+	ins := gen.Permute("", v)
+	checkEncode(v, ins, gen.MustBuild(ins))
 }
 
 // HLongString: strings, bytes and keys at the length-head boundaries 23/24/255/256 (content symbolic).
